@@ -26,6 +26,10 @@ PROPS["C07"] = dict(
         "Zrnt.Proofs.C07.ctx_count_eq_spec",
         "Zrnt.Proofs.C07.ctx_proposer_eq_spec_partial",
         "Zrnt.Proofs.C07.newEpochsContext_total",
+        "Zrnt.Proofs.C07.committee_eq_spec_sha256",
+        "Zrnt.Proofs.C07.ctx_committee_eq_spec_sha256",
+        "Zrnt.Proofs.C07.ctx_proposer_eq_spec_partial_sha256",
+        "Zrnt.Proofs.C07.newEpochsContext_total_sha256",
     ],
     modes=[dict(name="committees"), dict(name="c07chain")],
     level="proof",
